@@ -664,8 +664,8 @@ func main() {
 		return
 	}
 	vf.Main("C19", "exploration", func(r *vf.Run) {
-		r.Rule("valid UPDATEs (1–4 NLRI in the classic field, MP_REACH IPv4/IPv6, optional withdrawals; full attribute sets; session options drawn as in C20 and negotiated for real) → one mutation (25 %: two) out of: withdrawn-/attribute-length ±k, truncation, appended bytes, short NLRI, prefix length 33…255 / 129…255 in NLRI / withdrawn / MP_REACH / MP_UNREACH, dropped ORIGIN / AS_PATH / NEXT_HOP / all attributes, empty MP next hop, AS_PATH segment count ±, odd AS_PATH / COMMUNITIES / CLUSTER_LIST sizes, every fixed-size attribute one byte longer / shorter (outer lengths kept consistent), last attribute overrunning the region. Only mutants that the strict classifier labels with ≥ 1 class of the statement are cases. Every mutant bio-rd's Decode accepts, and every 50th other one, goes through a fresh Established session that holds 3 (+3 IPv6) valid routes. distinct_nontrivial = distinct (mutation, classes, session kind) among mutants that Decode accepted")
-		r.Assume("a message packet.Decode rejects cannot install anything because establishedState.msgReceived returns before looking at the body; re-checked on every 50th such mutant through a real session",
+		r.Rule("valid UPDATEs (1–4 NLRI in the classic field, MP_REACH IPv4/IPv6, optional withdrawals; full attribute sets; session options drawn as in C20 and negotiated for real) → one mutation (25 %: two) out of: withdrawn-/attribute-length ±k, truncation, appended bytes, short NLRI, prefix length 33…255 / 129…255 in NLRI / withdrawn / MP_REACH / MP_UNREACH, dropped ORIGIN / AS_PATH / NEXT_HOP / all attributes, empty MP next hop, AS_PATH segment count ±, odd AS_PATH / COMMUNITIES / CLUSTER_LIST sizes, every fixed-size attribute one byte longer / shorter (outer lengths kept consistent), last attribute overrunning the region. Only mutants that the strict classifier labels with ≥ 1 class of the statement are cases. Every mutant bio-rd's Decode accepts, and every 100th (thorough: 50th) other one, goes through a fresh Established session that holds 3 (+3 IPv6) valid routes. distinct_nontrivial = distinct (mutation, classes, session kind) among mutants that Decode accepted")
+		r.Assume("a message packet.Decode rejects cannot install anything because establishedState.msgReceived returns before looking at the body; re-checked on a 1–2 % sample of such mutants through real sessions",
 			"removals caused by a malformed UPDATE are not judged", "process-fatal mutants are counted (coverage.process_fatal_*), C21 judges them")
 		var cases []any
 		if raw, ok := r.Replaying(); ok {
@@ -676,7 +676,8 @@ func main() {
 			if v, err := strconv.Atoi(os.Getenv("VERIF_C19_N")); err == nil && v > 0 {
 				n = v // development aid
 			}
-			quotaSingle, quotaPair := r.N(20, 600), r.N(1, 40)
+			quotaSingle, quotaPair := r.N(12, 600), r.N(1, 40)
+			sampleEvery := r.N(100, 50) // share of the mutants Decode rejects that go through a session anyway
 			// generation, classification and the Decode pre-screen are pure functions: done here, in parallel
 			type slot struct {
 				c  ccase
@@ -719,7 +720,7 @@ func main() {
 					sig := strings.Join(c.Muts, "+")
 					if !c.Accepted {
 						rejected++
-						if (base+k)%50 == 0 {
+						if (base+k)%sampleEvery == 0 {
 							cases = append(cases, c)
 						}
 						continue
